@@ -4,7 +4,8 @@ import MosnVerif.Lemmas.FilterComplete
 
 Objects: `Cfg` = receiver chain (any length, any phase assignment, any script per filter = any verdict vector, also for
 re-invocations), sender chain, environment (every route-match / host-choice result by invocation number, pool refusal,
-one-way, the upstream event: response / reset / asynchronous TerminateStream).  `run c n init` = the state of the
+one-way, the upstream event: response / reset / asynchronous TerminateStream, and the route's retry policy: retry_on,
+retriable status codes, num_retries, the proxy_disable_retry variable).  `run c n init` = the state of the
 stream's worker after `n` iterations of the `receive` loop; all statements hold for every `n` (every point of the
 run), in particular for the finished run `trace c`.
 -/
@@ -34,15 +35,19 @@ theorem resume (c : Cfg) (n : Nat) : resumeOK 0 .BeforeRoute (run c n init).trac
 
 /-- **deny_not_forwarded**: if any receiver-filter invocation answered the request (hijack / direct response) or
 terminated it (termination status or `TerminateStream`), then no `connPool.NewStream` — admitted or refused — occurs
-anywhere in the trace, whatever the other filters return (continue, re-match, re-choose, …) and whatever the
-environment does. -/
+anywhere in the trace, AND the request is never handed to the retry path (`retried`: `processError` returned the
+phase Retry, whose `doRetry` is another `NewStream`) — whatever the other filters return (continue, re-match,
+re-choose, …), whatever the route's retry policy (retry_on, any status-code list, any budget: a 5xx or listed status
+written by the denying filter is NOT a retriable upstream response) and whatever the environment does.  The proof
+rests on the regenerated `processError` dropping the retry state when it takes the local reply. -/
 theorem deny_not_forwarded (c : Cfg) (n : Nat) (p : RPhase) (st : Nat) (invs : List Inv) (iv : Inv)
     (h : Ev.rpass p st invs ∈ (run c n init).trace) (hiv : iv ∈ invs) (hd : iv.2.isDeny = true) :
-    ∀ e ∈ (run c n init).trace, ∀ r, e ≠ Ev.up r := by
-  have hno := deny_noUp c n ⟨_, h, by simp only [denyEv, List.any_eq_true]; exact ⟨iv, hiv, hd⟩⟩
+    (∀ e ∈ (run c n init).trace, ∀ r, e ≠ Ev.up r) ∧ (run c n init).retried = false := by
+  have hno := deny_noUp_noRetry c n ⟨_, h, by simp only [denyEv, List.any_eq_true]; exact ⟨iv, hiv, hd⟩⟩
+  refine ⟨?_, hno.2⟩
   intro e he r heq
   subst heq
-  have := hno _ he
+  have := hno.1 _ he
   simp [isUp] at this
 
 /-- **once (sender side)**: at every point of the run the response side of the trace (sender passes and downstream
@@ -78,7 +83,9 @@ theorem single_reply_partial (c : Cfg) (ha : answeredIn (trace c)) (hnt : ¬ ter
     (hno : c.env.oneway = false) (hex : (final c).exhausted = false) :
     ∃ r code, replyOf (recvVerdicts (trace c)) (none, none) = (some r, code) ∧
       backPart (trace c) = .spass 0 (sendRun c.send 0) :: replyEvs r code := by
-  exact single_reply_of c (final c) (run_Ginv c fuel init (init_Ginv c)) (final_halted c) ha hnt hno hex
+  -- an answered request is never retried (deny_not_forwarded): the model run is complete
+  have hrt : (final c).retried = false := (deny_noUp_noRetry c fuel (answeredIn_deny ha)).2
+  exact single_reply_of c (final c) (run_Ginv c fuel init (init_Ginv c)) (final_halted c) ha hnt hno hex hrt
 
 /-- **complete (no filter is skipped)**: the first invocation of a stream is of the first filter of its phase and the
 earlier phases have no filters; inside a pass the next invocation is of the NEXT filter of the phase; when the phase
@@ -95,8 +102,9 @@ theorem spec_safety_holds_on_model (c : Cfg) (n : Nat) : specSafety c (flat (run
 
 /-- **the whole executable predicate holds of the finished model run**, single_reply included, for every
 configuration the worker does not abandon (see `single_reply_partial`). -/
-theorem spec_holds_on_model (c : Cfg) (hex : (final c).exhausted = false) : spec c (flat (trace c)) = true :=
-  spec_final c hex
+theorem spec_holds_on_model (c : Cfg) (hex : (final c).exhausted = false) (hrt : (final c).retried = false) :
+    spec c (flat (trace c)) = true :=
+  spec_final c hex hrt
 
 /-- **the model is closed**: its two escape hatches — the `unmodelled` marker (Retry phase, phase out of range, no
 upstream request at DownRecvHeader) and a worker blocked forever in `waitNotify` — are unreachable for every
@@ -111,8 +119,8 @@ theorem annot_reproduces_model (c : Cfg) (n : Nat) :
     annot c ((flat (run c n init).trace).map Obs.raw) = flat (run c n init).trace := annot_flat c n
 
 theorem agree_implies_spec (c : Cfg) (impl : List Raw) (h : impl = (flat (final c).trace).map Obs.raw)
-    (hex : (final c).exhausted = false) : spec c (annot c impl) = true := by
-  rw [h, annot_flat_final]; exact spec_final c hex
+    (hex : (final c).exhausted = false) (hrt : (final c).retried = false) : spec c (annot c impl) = true := by
+  rw [h, annot_flat_final]; exact spec_final c hex hrt
 
 /-! ### non-vacuity: concrete chains (the repaired defect, a re-match that resumes, a forwarded request) -/
 
@@ -138,6 +146,57 @@ example : answeredIn (trace exDeny) ∧ ¬ terminatedIn (trace exDeny) ∧ exDen
   · rw [exDeny_trace]; simp [terminatedIn, recvVerdicts]
 example : backPart (trace exDeny) = .spass 0 (sendRun exDeny.send 0) :: replyEvs ⟨false, false⟩ (some 403) := by
   rw [exDeny_trace]; decide
+
+/-- a route with retry_on (every 5xx retriable, budget 3), an upstream that would answer 503 -/
+def envRetry : Env :=
+  { route := fun _ => .found, host := fun _ => true, poolFail := false, up := .resp 503 false false,
+    pol := { disabled := false, retryOn := true, codes := [], numRetries := 2 } }
+
+/-- the seeded scenario: an AfterChooseHost filter answers 503 on that route — the retry state exists (chooseHost ran),
+the status is retriable, budget is left; nothing is sent upstream, the client gets the 503 after the sender filters -/
+def exDenyRetry : Cfg :=
+  { recv := [⟨.AfterChooseHost, [⟨.hijack 503 false, .Stop⟩]⟩], send := [⟨[]⟩], env := envRetry }
+
+example : trace exDenyRetry =
+    [.rpass .BeforeRoute 0 [], .rpass .AfterRoute 0 [], .rpass .AfterChooseHost 0 [(0, ⟨.hijack 503 false, .Stop⟩)],
+     .spass 0 [(0, .Continue)], .dh (some 503) true] ∧ (final exDenyRetry).retried = false ∧
+    (final exDenyRetry).cleaned = true := by decide +kernel
+
+/-- … the same with a status-code list (a listed 429 with body, filter continues), and a handler TerminateStream(503) -/
+def exDenyRetryList : Cfg :=
+  { recv := [⟨.AfterChooseHost, [⟨.hijack 429 true, .Continue⟩]⟩], send := [⟨[]⟩],
+    env := { route := fun _ => .found, host := fun _ => true, poolFail := false, up := .resp 503 false false,
+             pol := { disabled := false, retryOn := true, codes := [429], numRetries := 0 } } }
+def exDenyRetryTerm : Cfg :=
+  { recv := [⟨.AfterChooseHost, [⟨.terminate 503, .Continue⟩]⟩], send := [⟨[]⟩], env := envRetry }
+
+example : (final exDenyRetryList).retried = false ∧ (final exDenyRetryTerm).retried = false ∧
+    (∀ e ∈ trace exDenyRetryList, isUp e = false) ∧ (∀ e ∈ trace exDenyRetryTerm, isUp e = false) := by decide +kernel
+
+/-- the retry path is real in this model: the same route WITHOUT the filter forwards the request, the upstream's 503 is
+retried (the run stops where `doRetry` would call `NewStream` again) — so `retried = false` in `deny_not_forwarded` is
+not vacuous -/
+def exFwdRetry : Cfg := { recv := [], send := [⟨[]⟩], env := envRetry }
+
+example : (final exFwdRetry).retried = true ∧
+    trace exFwdRetry =
+      [.rpass .BeforeRoute 0 [], .rpass .AfterRoute 0 [], .rpass .AfterChooseHost 0 [], .up false, .spass 0 [(0, .Continue)]] := by
+  decide +kernel
+
+/-- … and so is a retried pool connection failure (retried by default, even without retry_on) -/
+def exFwdConnFail : Cfg :=
+  { recv := [], send := [⟨[]⟩],
+    env := { route := fun _ => .found, host := fun _ => true, poolFail := true, up := .resp 200 false false,
+             resetReason := "ConnectionFailed", pol := { disabled := false } } }
+
+example : (final exFwdConnFail).retried = true := by decide +kernel
+
+/-- with `proxy_disable_retry` (the environments of the original slice) nothing is ever retried -/
+def exFwdDisabled : Cfg :=
+  { recv := [], send := [⟨[]⟩],
+    env := { route := fun _ => .found, host := fun _ => true, poolFail := false, up := .resp 503 false false } }
+
+example : (final exFwdDisabled).retried = false ∧ (final exFwdDisabled).cleaned = true := by decide +kernel
 
 /-- a re-match that is honoured: filter 1 asks once, the next AfterRoute pass starts at filter 1 (filter 0 is not re-run),
 then the request is forwarded and the upstream response (headers + data) is relayed after the sender filters -/
